@@ -422,9 +422,18 @@ def r8(R):
 
 def r9(R):
     prog = R.prog
+    TR = "shared::provenance::Provenance::"
     impls = [b for b in prog.bodies.values() if b.crate == "shared" and not b.is_closure and "::tests::" not in b.key and b.name == "is_saturated"
              and (b.r.get("trait_item") or "").endswith("Provenance::is_saturated")]
-    R.floor("C06-R9", "implementations of Provenance::is_saturated", len(impls), 6)
+    # a provided (default) body in the trait itself, and the implementors that rely on it
+    default = prog.bodies.get(TR + "is_saturated")
+    implementors = sorted({b.self_adt for b in prog.bodies.values() if b.crate == "shared" and "::tests::" not in b.key and not b.is_closure and b.self_adt
+                           and (b.r.get("trait_item") or "").startswith(TR)})
+    own = {b.self_adt for b in impls}
+    by_default = [a for a in implementors if a not in own] if default is not None else []
+    R.floor("C06-R9", "provenances whose saturation test was analysed (own implementation or the trait's default)", len(impls) + len(by_default), 6)
+    missing = [a for a in implementors if a not in own and default is None]
+    R.ob("C06-R9", "every-provenance", "every implementor of Provenance has a saturation test (without one: %s)" % missing, not missing)
     PROJ = ("len", "count", "is_empty", "first", "last", "iter", "keys", "capacity", "min", "max", "next")
     for b in sorted(impls, key=lambda x: x.key):
         R.saw(b)
@@ -432,6 +441,27 @@ def r9(R):
         cmp_whole = any(c.name() in ("eq", "ne") for c in b.calls()) or any(rv["rv"] == "binop" and rv["op"] in ("Eq", "Ne", "Lt", "Le", "Gt", "Ge")
                                                                           for bb, i, pl, rv, st in b.assigns())
         ok = cmp_whole and not proj
-        who = (b.r.get("self_ty") or b.pretty or b.key).split("::")[-1] if hasattr(b, "r") else b.key
         R.ob("C06-R9", "whole-tags:" + b.key.split("::")[-2] if "::" in b.key else b.key, "%s compares the tags as wholes" % b.pretty.replace("shared::", ""), ok, where=b.where(),
              detail=None if ok else "the comparison goes through %s: two different tags with the same %s count as saturated and the new one is dropped" % (proj, proj[0] if proj else "projection"))
+    if default is not None:
+        R.saw(default)
+        # the default cannot see the tag type: it compares images under other trait methods; that is a whole-tag comparison only for an
+        # implementor whose image function loses nothing
+        through = sorted({c.name() for x in prog.family(default.key) for c in x.calls() if (c.pretty or "").startswith(TR) or (c.key or "").startswith(TR)})
+        R.ob("C06-R9", "default-body", "the trait's default saturation test compares images of the two tags (under: %s)" % through, bool(through), where=default.where())
+        for a in by_default:
+            lossy = []
+            for m in through:
+                mb = [b for b in prog.bodies.values() if b.self_adt == a and b.name == m and (b.r.get("trait_item") or "") == TR + m]
+                for b in mb:
+                    R.saw(b)
+                    casts = [rv.get("kind") for bb, i, pl, rv, st in b.assigns() if rv["rv"] == "cast" and str(rv.get("kind", "")).startswith(("IntToFloat", "FloatToInt", "IntToInt", "FloatToFloat"))]
+                    calls = [c.name() for x in prog.family(b.key) for c in x.calls() if c.name() not in ("deref", "clone", "borrow")]
+                    if casts or calls:
+                        lossy.append("%s (%s)" % (m, ", ".join(str(k) for k in casts + calls[:3])))
+                if not mb:
+                    lossy.append("%s (not found)" % m)
+            ok = not lossy
+            R.ob("C06-R9", "whole-tags:default:" + a.split("::")[-1], "%s, which uses the default saturation test, maps different tags to different images" % a.split("::")[-1], ok,
+                 where=default.where(), detail=None if ok else "its image function is not one-to-one: %s - two expiries beyond 2^53 that differ by less than the "
+                 "spacing of f64 count as `nothing changed`, the later expiry is dropped and the fact is not re-queued" % lossy)
